@@ -317,7 +317,7 @@ class Translator:
         if isinstance(n, ast.Name) and n.id in c and isinstance(c[n.id], bool):
             return c[n.id]
         if isinstance(n, ast.Call) and ast.unparse(n.func) == 'isinstance':
-            return False    # isinstance(x, numbers.Number) promotions: array path is the one modelled
+            return bool(c.get('__isinstance__', False))    # isinstance(x, numbers.Number) promotions: the array path unless the spec says the argument is a Python number
         return None
 
     # ------------------------------------------------------------------ statements
